@@ -88,6 +88,7 @@ type pool struct {
 	seq     int
 	mu      sync.Mutex
 	onDeath func(rq *request, d death) // called (serialised) for every request lost to a dead worker
+	noRetry bool                       // a death ends the request (replay of a single case)
 }
 
 func newPool(dir string) *pool {
@@ -301,6 +302,9 @@ func (p *pool) run(reqs []*request, deadline time.Time, handle func(*request, *r
 
 func (p *pool) onDeathLocked(rq *request, d death) *request {
 	p.onDeath(rq, d)
+	if p.noRetry {
+		return nil
+	}
 	// evaluate the rest of the request without the case that killed the worker
 	again := *rq
 	again.Skip = append(append([]string(nil), rq.Skip...), d.Info.Key+"#"+strconv.Itoa(d.Info.Ev))
@@ -338,7 +342,8 @@ func tail(s string, n int) string {
 type Family struct {
 	Name  string
 	B     Bounds
-	Share int // share of the time budget
+	Share int      // share of the time budget
+	Pool  []string // member ids of this family (default: the first sticky pool)
 }
 
 type Config struct {
@@ -349,9 +354,9 @@ type Config struct {
 	// size clauses such as "range sizes differ by at most one" need >= 4 subscribers of one topic to go wrong
 	Wide     []Bounds
 	WidePool []string
-	Pools     map[string][][]string // strategy -> id pools
-	Topics    []string
-	Budget    time.Duration
+	Pools    map[string][][]string // strategy -> id pools
+	Topics   []string
+	Budget   time.Duration
 }
 
 type item struct {
@@ -401,22 +406,33 @@ func DefaultConfig(property string) Config {
 	if ev.Tier() == "thorough" {
 		cfg.Stateless = Bounds{MaxMembers: 3, MaxTopics: 3, MaxParts: 4, R: 10}
 		cfg.Families = []Family{
-			{"2topics-3parts", Bounds{MaxMembers: 3, MaxTopics: 2, MaxParts: 3, Depth: 6, DFSDepth: 2, R: 10}, 25},
-			{"2topics-4parts", Bounds{MaxMembers: 3, MaxTopics: 2, MaxParts: 4, Depth: 4, DFSDepth: 1, R: 10}, 20},
-			{"3topics-2parts", Bounds{MaxMembers: 3, MaxTopics: 3, MaxParts: 2, Depth: 3, DFSDepth: 1, R: 10}, 30},
-			{"3topics-3parts", Bounds{MaxMembers: 3, MaxTopics: 3, MaxParts: 3, Depth: 1, DFSDepth: 0, R: 10}, 25},
+			{"2topics-3parts", Bounds{MaxMembers: 3, MaxTopics: 2, MaxParts: 3, Depth: 6, DFSDepth: 2, R: 10}, 25, nil},
+			{"2topics-4parts", Bounds{MaxMembers: 3, MaxTopics: 2, MaxParts: 4, Depth: 4, DFSDepth: 1, R: 10}, 20, nil},
+			{"3topics-2parts", Bounds{MaxMembers: 3, MaxTopics: 3, MaxParts: 2, Depth: 3, DFSDepth: 1, R: 10}, 30, nil},
+			{"3topics-3parts", Bounds{MaxMembers: 3, MaxTopics: 3, MaxParts: 3, Depth: 1, DFSDepth: 0, R: 10}, 25, nil},
+			{"5members-5x10", Bounds{MaxMembers: 5, MaxTopics: 2, MaxParts: 10, FixedParts: []int{5, 10}, Light: true, MinMembers: 4, MaxEvals: 6, Depth: 1, DFSDepth: -1, R: 3}, 20, []string{"a", "b", "c", "d", "e"}},
 		}
 	} else {
 		cfg.Stateless = Bounds{MaxMembers: 3, MaxTopics: 3, MaxParts: 3, R: 3}
 		cfg.Families = []Family{
-			{"2topics-3parts", Bounds{MaxMembers: 3, MaxTopics: 2, MaxParts: 3, Depth: 3, DFSDepth: 1, R: 3}, 45},
-			{"3topics-2parts", Bounds{MaxMembers: 3, MaxTopics: 3, MaxParts: 2, Depth: 2, DFSDepth: 0, R: 3}, 55},
+			{"2topics-3parts", Bounds{MaxMembers: 3, MaxTopics: 2, MaxParts: 3, Depth: 3, DFSDepth: 1, R: 3}, 45, nil},
+			{"3topics-2parts", Bounds{MaxMembers: 3, MaxTopics: 3, MaxParts: 2, Depth: 2, DFSDepth: 0, R: 3}, 55, nil},
+			{"5members-5x10", Bounds{MaxMembers: 5, MaxTopics: 2, MaxParts: 10, FixedParts: []int{5, 10}, Light: true, MinMembers: 4, MaxEvals: 6, Depth: 1, DFSDepth: -1, R: 3}, 40, []string{"a", "b", "c", "d", "e"}},
 		}
 	}
 	if v := os.Getenv("VERIF_BAL_BOUNDS"); v != "" { // members,topics,parts,depth,dfsdepth,R: ONE family (experiments only)
 		var b Bounds
 		fmt.Sscanf(v, "%d,%d,%d,%d,%d,%d", &b.MaxMembers, &b.MaxTopics, &b.MaxParts, &b.Depth, &b.DFSDepth, &b.R)
-		cfg.Families = []Family{{"experiment", b, 100}}
+		cfg.Families = []Family{{"experiment", b, 100, nil}}
+		if p := os.Getenv("VERIF_BAL_FIXED"); p != "" { // e.g. "5,10": fixed partition counts, five member ids
+			for _, x := range strings.Split(p, ",") {
+				n, _ := strconv.Atoi(x)
+				cfg.Families[0].B.FixedParts = append(cfg.Families[0].B.FixedParts, n)
+			}
+			cfg.Families[0].Pool = []string{"a", "b", "c", "d", "e"}
+			cfg.Families[0].B.Light = true
+			cfg.Families[0].B.MinMembers, cfg.Families[0].B.MaxEvals = 4, 6
+		}
 	}
 	return cfg
 }
@@ -457,7 +473,7 @@ func (s *Search) finding(f findRec, path string, how string) {
 
 func boundsMap(b Bounds, sticky bool) map[string]interface{} {
 	m := map[string]interface{}{"max_members": b.MaxMembers, "max_topics": b.MaxTopics, "max_partitions_per_topic": b.MaxParts,
-		"R_min_evaluations_per_case": b.R, "max_evaluations_per_case": maxEvals(b.R)}
+		"R_min_evaluations_per_case": b.R, "max_evaluations_per_case": capEvals(b)}
 	if sticky {
 		m["chain_depth_events_after_first_plan"] = b.Depth
 		m["differential_dfs_depth"] = b.DFSDepth
@@ -529,7 +545,7 @@ func Run(property string) int {
 	statelessWall := time.Since(s.start).Seconds()
 
 	// sticky: chains, one search per family
-	spool := cfg.Pools[Sticky][0]
+	spool0 := cfg.Pools[Sticky][0]
 	famInfo := []interface{}{}
 	summary := []string{}
 	for fi, fam := range cfg.Families {
@@ -542,6 +558,10 @@ func Run(property string) int {
 		bfsEnd := t0.Add(famEnd.Sub(t0) * 65 / 100)
 		diffEnd := t0.Add(famEnd.Sub(t0) * 90 / 100)
 		s.prefix, s.b = fam.Name, fam.B
+		spool := spool0
+		if len(fam.Pool) > 0 {
+			spool = fam.Pool
+		}
 		s.visited = map[[16]byte]uint8{} // the families are separate graphs (their events differ)
 		info := map[string]interface{}{"family": fam.Name, "bounds": boundsMap(fam.B, true)}
 		states0, cases0, evals0 := s.nStates, s.cases, s.evals
@@ -588,7 +608,9 @@ func Run(property string) int {
 		if dd > completedDepth {
 			dd = completedDepth
 		}
-		if dd >= 0 {
+		if fam.B.DFSDepth < 0 {
+			info["differential"] = "skipped for this family (the canonical key is validated by the other families; the unpruned search with its re-sampling costs minutes at this size)"
+		} else if dd >= 0 {
 			done, err := s.differential(spool, dd, diffEnd, famEnd, info)
 			if err != nil {
 				c.EngineError(err.Error())
